@@ -90,6 +90,7 @@ def gen_vector(rng, n, kind, basis_index=0):
 class Run(object):
     def __init__(self, cfg):
         self.cfg = cfg
+        m07.seed_global_rngs(cfg.get("est", cfg))
         self.ops = []
         self.log = []
         self.stats = {}
@@ -290,6 +291,16 @@ class Run(object):
                 viol = self._check_object(idx)
             elif k == "invalidate":
                 viol, outcome = self._op_invalidate(idx, op)
+            elif k == "plot":
+                viol, outcome = self._op_plot(idx, op)
+            elif k == "copy":
+                # the caller continues with a copy of the object (shallow or deep): the copy is an object in
+                # its own right and every clause applies to it
+                import copy as _copy
+                self.p = (_copy.deepcopy if op.get("deep") else _copy.copy)(p)
+                p = self.p
+                if not self.pending:
+                    viol = self._check_object(idx)
             elif k == "noop_assign":
                 # an attribute assigned its current value (possibly under another spelling: NFFT=None while
                 # NFFT equals the data length, 'nextpow2' while it already is that power of two): nothing an
@@ -411,6 +422,32 @@ class Run(object):
         self.sides = target
         self.paths.append(target)
         return self._check_object(idx), "ok"
+
+    def _op_plot(self, idx, op):
+        """plot() is a read path: "we do not want to change the attribute itself" (its own comment).  Whether it
+        succeeds or fails (a file name in a directory that does not exist), the object is left as it was."""
+        p = self.p
+        if self.pending:
+            return None, "skipped"
+        import pylab
+        before = self._snapshot()
+        kw = {}
+        if op.get("fail"):
+            kw["filename"] = "/nonexistent-directory-for-verif/x.png"
+        try:
+            try:
+                p.plot(sides=op.get("sides"), norm=bool(op.get("norm")), **kw)
+                out = "ok"
+            finally:
+                pylab.close("all")
+        except Exception as e:
+            out = "raised:" + type(e).__name__
+        after = self._snapshot()
+        if not self._same(before, after):
+            return Violation("pure_accessor", idx, "plot(sides=%r, norm=%r)%s changed the object: sides %s -> %s, psd %s"
+                             % (op.get("sides"), bool(op.get("norm")), " (which failed)" if out != "ok" else "",
+                                before[0], after[0], "changed" if not exact_equal(before[1], after[1]) else "same")), out
+        return None, out
 
     # -- conversions requested while an invalidation is pending ------------------------------------------
     # The stored PSD is obsolete.  Whatever brings it up to date stores the new estimate in the default
@@ -622,6 +659,8 @@ class Run(object):
         A = dec_array(op["A"]) if op.get("A") else None
         B = dec_array(op["B"]) if op.get("B") else None
         kw = dict(A=A, B=B, rho=op["rho"], T=op["T"], NFFT=op["NFFT"])
+        if op.get("norm"):
+            kw["norm"] = True
         try:
             two = sp.arma2psd(**kw)
             cen = sp.arma2psd(sides="centerdc", **kw)
@@ -647,6 +686,7 @@ def base_cfg(rng, cplx, M, kind, basis_index=0):
     n = M if cplx else refmodel.n_onesided(M)
     vec = gen_vector(rng, n, kind, basis_index)
     return {"kind": "base", "cplx": bool(cplx), "M": M, "N": rng.choice([max(2, M), max(2, M // 2), M + 3]),
+            "_grng": rng.getrandbits(32),
             "sampling": rng.choice([1.0, 1.0, 2.0, 1000.0, 0.5, 100.0, 44100.0, 8000.0, 0.1, 3.0, 1024.0]),
             "vec": enc_array(vec), "vkind": kind}
 
@@ -800,6 +840,12 @@ def gen_op(rng, run):
     cplx = run.cplx
     if run.cfg["kind"] == "est" and rng.random() < 0.18:
         return gen_invalidate(rng, run)
+    r0 = rng.random()
+    if r0 < 0.015 and not run.dead:
+        return {"op": "plot", "sides": rng.choice([None, "onesided", "twosided", "centerdc"]), "norm": rng.random() < 0.5,
+                "fail": rng.random() < 0.4}
+    if r0 < 0.03 and not run.dead:
+        return {"op": "copy", "deep": rng.random() < 0.3}
     if rng.random() < 0.08 and not run.dead:
         p = run.p
         cands = [("sampling", "<current>"), ("scale_by_freq", "<current>"), ("NFFT", "<current>")]
@@ -850,7 +896,7 @@ def gen_op(rng, run):
         A = [rng.uniform(-0.5, 0.5)]
     return {"op": "arma", "A": enc_array(np.array(A)) if A else None, "B": enc_array(np.array(B)) if B else None,
             "rho": rng.choice([1.0, 0.5, 2.0]), "T": rng.choice([1.0, 2.0, 0.5]),
-            "NFFT": rng.choice([4, 5, 8, 9, 16, 17, rng.randrange(4, 65)])}
+            "NFFT": rng.choice([4, 5, 8, 9, 16, 17, rng.randrange(4, 65)]), "norm": rng.random() < 0.3}
 
 
 def run_random(seed):
@@ -916,6 +962,10 @@ def describe(cfg, ops):
             out.append("get_converted_psd(%r)" % (o["sides"],))
         elif k == "read":
             out.append("psd")
+        elif k == "plot":
+            out.append("plot(sides=%r, norm=%r%s)" % (o.get("sides"), bool(o.get("norm")), ", unwritable file" if o.get("fail") else ""))
+        elif k == "copy":
+            out.append("p = copy.%s(p)" % ("deepcopy" if o.get("deep") else "copy"))
         elif k == "noop_assign":
             out.append("%s=%s" % (o["attr"], "<same>" if o["value"] == "<current>" else repr(o["value"])))
         elif k == "invalidate":
